@@ -31,6 +31,16 @@ theorem mem_heapLocs (s : Nat) (l : List Nat) (x : Loc) :
 theorem nodup_heapLocs (s : Nat) (l : List Nat) (h : l.Nodup) : (l.map (fun i => Loc.heap s i 1)).Nodup :=
   nodup_map_inj _ (fun x y e => by simp only [Loc.heap.injEq] at e; exact e.2.1) _ h
 
+@[simp] theorem reserveCopy_per (st : State) (ob nb : Nat) (l : List Nat) : (reserveCopy st ob nb l).per = st.per := by
+  induction l generalizing st with
+  | nil => rfl
+  | cons a rest ih => simp [reserveCopy, ih]
+
+@[simp] theorem shiftDown_per (st : State) (s : Nat) (l : List Nat) : (shiftDown st s l).per = st.per := by
+  induction l generalizing st with
+  | nil => rfl
+  | cons a rest ih => simp [shiftDown, ih]
+
 /-- in the storage block of an array exactly the elements below `size` are live -/
 theorem store_live_iff {st : State} (h : SInv st) {a s : Nat} (hs : (st.arrs a).store = some s) (i f : Nat) :
     (st.mem (.heap s i f)).isSome = true ↔ i < (st.arrs a).size ∧ f = 1 := by
@@ -61,7 +71,7 @@ def inStore (o : Option Nat) (l : Loc) : Prop := ∃ b i, o = some b ∧ l = .he
     liveness changes only inside the element slots of the old and the new storage block, where afterwards
     exactly the elements of x' are live. -/
 theorem arr_replace {st st' : State} (h : SInv st) (a : Nat) (x' : Arr) (hv : a ≤ 1)
-    (harrs : st'.arrs = upd st.arrs a x') (hnodes : st'.nodes = st.nodes)
+    (harrs : st'.arrs = upd st.arrs a x') (hnodes : st'.nodes = st.nodes) (hper : st'.per = st.per)
     (hnext : st.next ≤ st'.next)
     (hfresh : ∀ s', x'.store = some s' → s' < st'.next)
     (hblkO : ∀ b, (st.arrs a).store ≠ some b → x'.store ≠ some b → st'.blk b = st.blk b)
@@ -114,7 +124,7 @@ theorem arr_replace {st st' : State} (h : SInv st) (a : Nat) (x' : Arr) (hv : a 
     · rintro ⟨b', i', _, h4⟩; cases h4
   constructor
   · simpa only [hnodes] using h.slots_nodup
-  · simpa only [hnodes] using h.slots_in
+  · simpa only [hnodes, hper] using h.slots_in
   · simpa only [hnodes] using h.blocks_nodup
   · simpa only [hnodes] using h.data_notin
   · intro o o' b h1 h2
@@ -127,7 +137,7 @@ theorem arr_replace {st st' : State} (h : SInv st) (a : Nat) (x' : Arr) (hv : a 
       · rw [h1a, h2a]
   · intro c b hb
     rw [hnodes] at hb
-    rw [hkeep (.node c) b (Or.inl hb) (by simp)]
+    rw [hkeep (.node c) b (Or.inl hb) (by simp), hper]
     exact h.blocks_blk c b hb
   · intro c d hd
     rw [hnodes] at hd
@@ -205,11 +215,11 @@ theorem arr_replace {st st' : State} (h : SInv st) (a : Nat) (x' : Arr) (hv : a 
 theorem arr_resize {st st' : State} (h : SInv st) (a s sz : Nat) (x' : Arr) (hv : a ≤ 1)
     (hs : (st.arrs a).store = some s) (hx' : x' = { st.arrs a with size := sz })
     (harrs : st'.arrs = upd st.arrs a x') (hnodes : st'.nodes = st.nodes) (hblk : st'.blk = st.blk)
-    (hnext : st'.next = st.next) (hsz : sz ≤ (st.arrs a).cap)
+    (hnext : st'.next = st.next) (hper : st'.per = st.per) (hsz : sz ≤ (st.arrs a).cap)
     (hout : ∀ l, (∀ i, l ≠ .heap s i 1) → (st'.mem l).isSome = (st.mem l).isSome)
     (hin : ∀ i, (st'.mem (.heap s i 1)).isSome = true ↔ i < sz) : SInv st' := by
   subst hx'
-  refine arr_replace h a _ hv harrs hnodes (by omega) ?_ ?_ ?_ ?_ ?_ ?_ ?_ ?_ ?_ ?_ ?_
+  refine arr_replace h a _ hv harrs hnodes hper (by omega) ?_ ?_ ?_ ?_ ?_ ?_ ?_ ?_ ?_ ?_ ?_
   · intro s' hs'
     have hs' : (st.arrs a).store = some s' := hs'
     rw [hnext]; exact h.owns_lt (o := .arr a) hs'
@@ -250,7 +260,7 @@ theorem aCreate_ok {st st' : State} (h : SInv st) (a cap : Nat) (hv : a ≤ 1)
     subst he
     have hz := h.dead_arr a hA
     refine ⟨?_, Trace.of_same rfl rfl rfl rfl⟩
-    refine arr_replace h a { alive := true, cap := cap } hv rfl rfl (Nat.le_refl _) ?_ ?_ ?_ ?_ ?_ ?_ ?_ ?_ ?_ ?_ ?_
+    refine arr_replace h a { alive := true, cap := cap } hv rfl rfl rfl (Nat.le_refl _) ?_ ?_ ?_ ?_ ?_ ?_ ?_ ?_ ?_ ?_ ?_
     · intro s' hs; cases hs
     · intro b _ _; rfl
     · intro b hb; rw [hz] at hb; cases hb
@@ -317,7 +327,7 @@ theorem aPush_ok {st st' : State} (h : SInv st) (a : Nat) (src : SrcRef) (hv : a
           simp only [Chk.slotOk, hb]
           simp; omega
         refine ⟨?_, Trace.trans (trace_ctor st _ l p hslot hdead hp hsl) (Trace.of_same rfl rfl rfl rfl)⟩
-        refine arr_resize h a s ((st.arrs a).size + 1) _ hv hs ?_ rfl rfl rfl rfl (by omega) ?_ ?_
+        refine arr_resize h a s ((st.arrs a).size + 1) _ hv hs ?_ rfl rfl rfl rfl rfl (by omega) ?_ ?_
         · simp [hs]
         · intro x hx
           simp only [setArr_mem, ctor_mem, upd_other _ _ _ _ (hx _)]
@@ -355,12 +365,13 @@ theorem aTruncate_ok {st st' : State} (h : SInv st) (a n : Nat) (hv : a ≤ 1)
             if l ∈ (range' n (st.arrs a).size).map (fun i => Loc.heap s i 1) then none else st.mem l := by
           intro x' l; simp only [setArr_mem, dtorRange, dtorLocs_mem]
         constructor
-        · refine arr_resize h a s n { st.arrs a with size := n } hv hs rfl ?_ ?_ ?_ ?_
+        · refine arr_resize h a s n { st.arrs a with size := n } hv hs rfl ?_ ?_ ?_ ?_ ?_
             (Nat.le_trans (Nat.le_of_lt hn) (h.arr_size a s hs)) ?_ ?_
           · simp only [setArr_arrs, dtorRange, dtorLocs_arrs]
           · simp only [setArr_nodes, dtorRange, dtorLocs_nodes]
           · simp only [setArr_blk, dtorRange, dtorLocs_blk]
           · simp only [setArr_next, dtorRange, dtorLocs_next]
+          · simp only [setArr_per, dtorRange, dtorLocs_per]
           · intro l hl
             rw [hmemEq]
             have : l ∉ (range' n (st.arrs a).size).map (fun i => Loc.heap s i 1) := by
@@ -407,7 +418,7 @@ theorem aDestroy_ok {st st' : State} (h : SInv st) (a : Nat) (hv : a ≤ 1)
     | none =>
       simp only []
       refine ⟨?_, Trace.of_same rfl rfl rfl rfl⟩
-      refine arr_replace h a {} hv rfl rfl (Nat.le_refl _) ?_ ?_ ?_ ?_ ?_ ?_ ?_ ?_ ?_ ?_ ?_
+      refine arr_replace h a {} hv rfl rfl rfl (Nat.le_refl _) ?_ ?_ ?_ ?_ ?_ ?_ ?_ ?_ ?_ ?_ ?_
       · intro s' hs'; cases hs'
       · intro b _ _; rfl
       · intro b hb; rw [hs] at hb; cases hb
@@ -431,9 +442,10 @@ theorem aDestroy_ok {st st' : State} (h : SInv st) (a : Nat) (hv : a ≤ 1)
           Loc.heap s i 1 ∈ (List.range (st.arrs a).size).map (fun i => Loc.heap s i 1) :=
         fun i hi => (mem_heapLocs _ _ _).mpr ⟨i, List.mem_range.mpr hi, rfl⟩
       constructor
-      · refine arr_replace h a {} hv ?_ ?_ (Nat.le_of_eq ?_) ?_ ?_ ?_ ?_ ?_ ?_ ?_ ?_ ?_ ?_ ?_
+      · refine arr_replace h a {} hv ?_ ?_ ?_ (Nat.le_of_eq ?_) ?_ ?_ ?_ ?_ ?_ ?_ ?_ ?_ ?_ ?_ ?_
         · simp only [setArr_arrs, freeBlk_arrs, dtorRange, dtorLocs_arrs]
         · simp only [setArr_nodes, freeBlk_nodes, dtorRange, dtorLocs_nodes]
+        · simp only [setArr_per, freeBlk_per, dtorRange, dtorLocs_per]
         · simp only [setArr_next, freeBlk_next, dtorRange, dtorLocs_next]
         · intro s' hs'; cases hs'
         · intro b h1 _
@@ -509,7 +521,7 @@ theorem swn_swn (a b x : Nat) : swn a b (swn a b x) = x := by
 theorem SInv.of_perm_arr {st st' : State} (h : SInv st) (σ : Nat → Nat) (hσ : ∀ x, σ (σ x) = x)
     (hval : ∀ x, 1 < x → σ x = x)
     (ha : ∀ x, st'.arrs x = st.arrs (σ x)) (hn : st'.nodes = st.nodes) (hb : st'.blk = st.blk)
-    (hx : st'.next = st.next) (hm : st'.mem = st.mem) : SInv st' := by
+    (hx : st'.next = st.next) (hm : st'.mem = st.mem) (hp : st'.per = st.per := by rfl) : SInv st' := by
   let τ : Owner → Owner := fun o => match o with | .node c => .node c | .arr a => .arr (σ a)
   have hτ : ∀ o, τ (τ o) = o := by
     intro o; cases o with
@@ -521,13 +533,13 @@ theorem SInv.of_perm_arr {st st' : State} (h : SInv st) (σ : Nat → Nat) (hσ 
     | arr a => simp only [owns, ha, τ]
   constructor
   · simpa only [hn] using h.slots_nodup
-  · simpa only [hn] using h.slots_in
+  · simpa only [hn, hp] using h.slots_in
   · simpa only [hn] using h.blocks_nodup
   · simpa only [hn] using h.data_notin
   · intro o o' b h1 h2
     have := h.own_unique _ _ b ((ho o b).mp h1) ((ho o' b).mp h2)
     rw [← hτ o, ← hτ o', this]
-  · simpa only [hn, hb] using h.blocks_blk
+  · simpa only [hn, hb, hp] using h.blocks_blk
   · simpa only [hn, hb] using h.data_blk
   · intro a s; rw [ha, hb]; exact h.store_blk _ s
   · intro b n hbn
@@ -620,14 +632,14 @@ theorem aRemove_ok {st st' : State} (h : SInv st) (a j : Nat) (hv : a ≤ 1)
         have := (mem_range' _ _ _).mp hi
         exact ⟨h.elems_live a s i hs (by omega), h.elems_live a s (i + 1) hs (by omega)⟩)
       have h1 : SInv (shiftDown st s (range' j ((st.arrs a).size - 1))) :=
-        SInv.of_same_live h nd ar b n m
+        SInv.of_same_live h nd ar b n m (shiftDown_per _ _ _)
       have hs1 : ((shiftDown st s (range' j ((st.arrs a).size - 1))).arrs a).store = some s := by rw [ar]; exact hs
       have hlast : ((shiftDown st s (range' j ((st.arrs a).size - 1))).mem
           (.heap s ((st.arrs a).size - 1) 1)).isSome = true := by
         rw [m]; exact h.elems_live a s _ hs (by omega)
       constructor
       · refine arr_resize h1 a s ((st.arrs a).size - 1) { st.arrs a with size := (st.arrs a).size - 1 } hv hs1
-          (by rw [ar]) ?_ rfl rfl rfl ?_ ?_ ?_
+          (by rw [ar]) ?_ rfl rfl rfl rfl ?_ ?_ ?_
         · simp only [setArr_arrs, dtor_arrs]
         · rw [ar]; have := h.arr_size a s hs; omega
         · intro x hx
@@ -743,7 +755,7 @@ theorem aReserve_ok {st st' : State} (h : SInv st) (a n : Nat) (hv : a ≤ 1)
         simp only []
         have hsz : (st.arrs a).size = 0 := h.arr_none a hs
         refine ⟨?_, Trace.trans (trace_alloc st C) (Trace.of_same rfl rfl rfl rfl)⟩
-        refine arr_replace h a { st.arrs a with store := some st.next, cap := C } hv rfl rfl
+        refine arr_replace h a { st.arrs a with store := some st.next, cap := C } hv rfl rfl rfl
           (Nat.le_succ _) ?_ ?_ ?_ ?_ ?_ ?_ ?_ ?_ ?_ ?_ ?_
         · intro s' hs'; cases hs'; exact Nat.lt_succ_self _
         · intro b _ h2
@@ -770,7 +782,9 @@ theorem aReserve_ok {st st' : State} (h : SInv st) (a n : Nat) (hv : a ≤ 1)
             intro i hi
             have hi := List.mem_range.mp hi
             exact ⟨by omega, hnbdead i 1, h.elems_live a ob i hs hi⟩)
-        generalize hR : reserveCopy (st.alloc C) ob st.next (List.range (st.arrs a).size) = R at t m1 m2 b nx nd ar
+        have hpR : (reserveCopy (st.alloc C) ob st.next (List.range (st.arrs a).size)).per = (st.alloc C).per :=
+          reserveCopy_per _ _ _ _
+        generalize hR : reserveCopy (st.alloc C) ob st.next (List.range (st.arrs a).size) = R at t m1 m2 b nx nd ar hpR
         have hRother : ∀ i f, ¬ (i < (st.arrs a).size ∧ f = 1) → ∀ blk, R.mem (.heap blk i f) = st.mem (.heap blk i f) := by
           intro i f hif blk
           rw [m2]; rfl
@@ -789,9 +803,10 @@ theorem aReserve_ok {st st' : State} (h : SInv st) (a n : Nat) (hv : a ≤ 1)
             · rw [hRother i f hif]; exact store_dead h hs i f hif
         constructor
         · refine arr_replace h a { st.arrs a with store := some st.next, cap := C } hv ?_ ?_ ?_ ?_ ?_ ?_ ?_ ?_ ?_ ?_ ?_
-            ?_ ?_ ?_
+            ?_ ?_ ?_ ?_
           · simp only [setArr_arrs, freeBlk_arrs, ar, alloc_arrs]
           · simp only [setArr_nodes, freeBlk_nodes, nd, alloc_nodes]
+          · simp only [setArr_per, freeBlk_per, hpR, alloc_per]
           · simp only [setArr_next, freeBlk_next, nx, alloc_next]; exact Nat.le_succ _
           · intro s' hs'; cases hs'
             simp only [setArr_next, freeBlk_next, nx, alloc_next]; exact Nat.lt_succ_self _
